@@ -690,7 +690,7 @@ def gen_tied(rng, shared_bias=0.0, nsg=None, extras=True):
             w0 = g.tensor(gr.name("w"), [o, f], data=wdata)
             shared_buf = g.sg.tensors[w0].buffer
         else:
-            if rng.random() < 0.25:
+            if rng.random() < 0.35:
                 # the tied weight carries the SAME NAME in both subgraphs (the library must refuse duplicate names model-wide)
                 w0 = g.tensor(first_w_name, [o, f], buffer=shared_buf)
                 gr.n += 1
@@ -814,6 +814,43 @@ def gen_tied(rng, shared_bias=0.0, nsg=None, extras=True):
                 outs.append(we)
             info["tags"].add("tied_unread_constant")
         g.io(gr.inputs, outs, sig=f"sig{si}" if nsg > 1 else "serving_default")
+        info["subgraphs"].append({"sig": None, "int_inputs": [], "ops": kinds})
+    return g.bytes(), info
+
+
+def gen_twin_signatures(rng):
+    """the same function exported under two signatures: identical structure in both subgraphs, the weight tensor carries the SAME NAME
+    and the same buffer in both (everything else is named per subgraph). The library requires model-wide unique names and must refuse it."""
+    g = G()
+    info = {"tags": {"tied", "twin_signatures_same_weight_name"}, "subgraphs": []}
+    f, o = rng.choice([2, 3, 4, 8]), rng.choice([2, 3, 8])
+    wdata = _const(rng, [o, f], kind="normal")
+    buf = None
+    tail = rng.choice([None, BO.TANH, BO.LOGISTIC])
+    with_bias = rng.random() < 0.5
+    for si in range(2):
+        prefix = f"s{si}/"
+        g.subgraph(name=prefix.encode())
+        gr = Grower(g, rng, prefix)
+        x = gr.add_input([rng.randint(1, 2), f])
+        if buf is None:
+            w = g.tensor("shared/kernel", [o, f], data=wdata)
+            buf = g.sg.tensors[w].buffer
+        else:
+            w = g.tensor("shared/kernel", [o, f], buffer=buf)
+        b = gr.const([o], kind="small", base="b") if with_bias else -1
+        y = gr.new_act([g.sg.tensors[x].shape[0], o])
+        g.op(BO.FULLY_CONNECTED, [x, w, b], [y], OPT.FullyConnectedOptions, s.FullyConnectedOptionsT())
+        gr.out(y, [g.sg.tensors[x].shape[0], o])
+        kinds = ["FULLY_CONNECTED"]
+        out = y
+        if tail is not None:
+            z = gr.new_act([g.sg.tensors[x].shape[0], o])
+            g.op(tail, [y], [z])
+            gr.out(z, [g.sg.tensors[x].shape[0], o])
+            out = z
+            kinds.append("UNARY")
+        g.io(gr.inputs, [out], sig=f"sig{si}")
         info["subgraphs"].append({"sig": None, "int_inputs": [], "ops": kinds})
     return g.bytes(), info
 
